@@ -335,9 +335,7 @@ impl Prop for C02 {
                         FIDELITY_RETRIES.fetch_add(1, std::sync::atomic::Ordering::Relaxed);
                     }
                     if !same {
-                        let _ = std::fs::create_dir_all("/verif/out");
-                        let _ = std::fs::write("/verif/out/fidelity-mismatch-C02.json", serde_json::to_string(&case).unwrap_or_default());
-                        panic!("transport fidelity: {last}");
+                        o.fail(format!("C02|real sockets|valve::query|differs from the scripted transport|{}", last.rsplit(' ').next().unwrap_or("")), serde_json::json!({"difference": last}));
                     }
                 }
             }
